@@ -82,6 +82,18 @@ def _corpus():
         [i0, i1, alloc0, s0, i0, i0, alloc0, i1, s1, s0, s0, i0, i1],
         [s0, i0, alloc0, s1, i0, s0, s0, i0, i0, alloc0],
     ]
+    # classical state of a re-registered application is fresh: write registers of all banks, stop,
+    # register the same id again, read before write (must fault), write again (must land in its own table)
+    wr = {"k": "sub", "a": 0, "fuel": 20, "or": [1], "p": [["set", 0, 0, 5], ["set", 1, 2, 6], ["set", 2, 0, 0],
+                                                         ["set", 3, 1, 1], ["qalloc", 2, 0], ["meas", 2, 0, 3, 4],
+                                                         ["ret_reg", 0, 0]]}
+
+    def rd(ins):
+        return {"k": "sub", "a": 0, "fuel": 20, "or": [], "p": [ins]}
+    for reader in (["ret_reg", 0, 0], ["add", 0, 1, 0, 0, 1, 2], ["qalloc", 2, 0], ["store", 3, 1, 0, 3, 4],
+                   ["blt", 0, 0, 1, 2, 0]):
+        cycles.append([i0, wr, s0, i0, rd(reader), {"k": "sub", "a": 0, "fuel": 20, "or": [], "p": [
+            ["set", 0, 0, 9], ["set", 2, 0, 1], ["qalloc", 2, 0], ["ret_reg", 0, 0]]}, s0])
     out = [f16, f27, dict(f16, msg=True), dict(f27, msg=True)]
     for ops in cycles:
         for msg in (False, True):
@@ -126,7 +138,9 @@ def run(ctx):
 
     def check(sc, tag):
         inv = H.InvariantObserver()
-        real, model, d = H.compare(sc, drv, [inv])
+        fresh = H.FreshObserver()
+        real, model, d = H.compare(sc, drv, [inv, fresh])
+        inv.failures += fresh.failures
         res.evaluations += 1
         mapped_any = False
         for o, st in zip(sc["ops"], model[:len(real)]):
@@ -163,13 +177,14 @@ def run(ctx):
             f = inv.failures[0]
 
             def fails(c):
-                ob = H.InvariantObserver()
-                H.run_real(c, [ob])
-                return any(x["what"] == f["what"] for x in ob.failures)
+                ob, fo = H.InvariantObserver(), H.FreshObserver()
+                H.run_real(c, [ob, fo])
+                return any(x["what"] == f["what"] for x in ob.failures + fo.failures)
             small = H.shrink(sc, fails, budget=200)
-            ob = H.InvariantObserver()
-            H.run_real(small, [ob])
-            f2 = ob.failures[0] if ob.failures else f
+            ob, fo = H.InvariantObserver(), H.FreshObserver()
+            H.run_real(small, [ob, fo])
+            same = [x for x in ob.failures + fo.failures if x["what"] == f["what"]]
+            f2 = same[0] if same else f
             res.failures.append({"what": f2["what"], "kf": None,
                                  "input": {"scenario": small, "readable": H.describe(small), "detail": f2}})
 
@@ -238,6 +253,22 @@ def run(ctx):
     n_multi = 2000 if ctx.thorough else 150
     for k in range(n_multi):
         check(H.multi_scenario(rng, rng.choice([15, 30, 60])), "multi-executor")
+        if len(res.failures) >= 5:
+            return res
+
+    # message route with interleaved handling: the handler generators of several SUBROUTINE messages are
+    # advanced alternately; half of the histories send byte-identical subroutines from different apps
+    for pos in itertools.combinations(range(2 * len(sub_a)), len(sub_a)):
+        ticks = [{"k": "tick", "i": 1 if t in pos else 0} for t in range(2 * len(sub_a))]
+        check({"hw": False, "msg": True, "apps": [0, 1], "addrs": [0], "ops": [
+            {"k": "init", "a": 0, "n": 2}, {"k": "init", "a": 1, "n": 2},
+            {"k": "spawn", "a": 0, "p": [list(i) for i in sub_a]},
+            {"k": "spawn", "a": 1, "p": [list(i) for i in sub_a]}] + ticks}, "interleaved-msg")
+        if len(res.failures) >= 5:
+            return res
+    n_mpar = 4000 if ctx.thorough else 200
+    for k in range(n_mpar):
+        check(H.par_scenario(rng, rng.choice([10, 20, 40]), msg=True, identical=(k % 2 == 0)), "interleaved-msg")
         if len(res.failures) >= 5:
             return res
 
